@@ -167,7 +167,7 @@ class ZoneAnalysis:
             if s.status == 'pre':
                 pre.append(s)
         summ = {'retlen': retlen, 'pre': pre, 'post': self._post_ok(zf), 'retlen_lb': self._retlen_lb(zf), 'retelem': self._retelem(zf),
-                'post_true': self._post_true_params(zf)}
+                'post_true': self._post_true_params(zf), 'retval': self._retval(zf)}
         self._inprog.discard(path)
         self._summ[path] = summ
         return summ
@@ -191,6 +191,52 @@ class ZoneAnalysis:
                      and not (t1[0] is None and t2[0] is None))
             common = fs if common is None else (common & fs)
         return sorted(common or [], key=str)
+
+    def _retval(self, zf):
+        """parameter terms T with `returned integer <= T` at every return that yields one (plain usize, or the payload of Ok / Some)"""
+        body = zf.body
+        rty = body.local_ty(0)
+        INTS = ('usize', 'u64', 'u32')
+        wrapped = rty.startswith(('std::result::Result<usize', 'std::result::Result<u64', 'std::result::Result<u32',
+                                  'std::option::Option<usize', 'std::option::Option<u64', 'std::option::Option<u32'))
+        if rty not in INTS and not wrapped:
+            return []
+        rets = []
+        for bi, blk in enumerate(body.blocks):
+            if blk['cleanup']:
+                continue
+            for st in blk['stmts']:
+                if st['k'] == 'assign' and st['dst']['l'] == 0 and not st['dst'].get('p'):
+                    rv = st['rv']
+                    if wrapped:
+                        if rv['k'] == 'agg' and rv.get('variant') in ('Ok', 'Some') and rv['ops']:
+                            rets.append((bi, zf.term_op(rv['ops'][0])))
+                        elif rv['k'] == 'agg' and rv.get('variant') in ('Err', 'None'):
+                            continue
+                        else:
+                            return []
+                    elif rv['k'] == 'use':
+                        rets.append((bi, zf.term_op(rv['op'])))
+                    elif rv['k'] == 'binop':
+                        rets.append((bi, zf._binop_term(0, rv, bi)))
+                    else:
+                        return []
+            t = blk['term']
+            if t['k'] == 'call' and t['dst']['l'] == 0:
+                if wrapped and (t.get('callee') or '').endswith('FromResidual::from_residual'):
+                    continue
+                return []
+        if not rets or any(tt is None for _, tt in rets):
+            return []
+        cands = []
+        for k in range(1, body.arg_count + 1):
+            ty = body.local_ty(k).lstrip('&').strip()
+            if ty in INTS:
+                cands.append(('p%d' % k, 0))
+            elif ty.startswith(('[', 'std::vec::Vec<')) and not body.local_ty(k).startswith('&mut'):
+                cands.append(('len:%s' % body.local_name(k), 0))
+        out = [T for T in cands if all(zf.prove_le(tt, T, bi) for bi, tt in rets)]
+        return out
 
     def _post_true_params(self, zf):
         """indexes of `bool` parameters that are true at every Ok / Some return (`fn ensure(cond: bool, ..) -> Result<(), E>`)"""
@@ -437,6 +483,13 @@ class ZoneAnalysis:
                 if rl is None and cal == 'std::iter::Iterator::collect' and x['args']:
                     rl = zf.iter_len(x['args'][0])
                 cands.setdefault((), []).append(rl)
+                # tail call of a local function returning a struct: the lengths of its fields carry over
+                tgt = local_target(self.eng, x)
+                if tgt and tgt != body.path:
+                    s2 = self.summary(tgt)
+                    for p2, t2 in ((s2 or {}).get('retlen') or {}).items():
+                        if p2 != ():
+                            cands.setdefault(p2, []).append(self.subst(zf, x, t2))
         for path, ts in cands.items():
             ts2 = [t for t in ts]
             if ts2 and all(t is not None and t == ts2[0] for t in ts2) and self._param_term_ok(zf, ts2[0]):
@@ -633,7 +686,7 @@ class ZoneAnalysis:
                 cal = t.get('callee') or ''
                 args = t['args']
                 if cal in PANIC_FNS or cal.startswith('core::panicking::'):
-                    add(Site(body.path, bi, 'panic', self._panic_desc(zf, bi), None, t['line'], t.get('span')))
+                    add(Site(body.path, bi, 'panic', self._panic_desc(zf, bi), self._assert_need(zf, bi), t['line'], t.get('span')))
                 elif cal in INDEX_CALLS and len(args) == 2 and args[0]['k'] in ('copy', 'move'):
                     cont = zf.desc_place(args[0]['pl'])
                     ln = zf.len_of_desc(cont)
@@ -761,6 +814,68 @@ class ZoneAnalysis:
                 self._discharge(zf, s)
                 cs.status = 'pre'
                 cs.pre = list(cs.need)
+
+    def _assert_need(self, zf, bi):
+        """an explicit panic whose only way in is the failing side of one integer comparison (assert!, assert_eq!, debug_assert!..):
+        the bounds that make the comparison pass, when they are equivalent to it."""
+        body = zf.body
+        cur, sw = bi, None
+        for _ in range(10):
+            preds = [p for p in body.pred[cur] if not body.blocks[p]['cleanup']]
+            if len(preds) != 1:
+                return None
+            t = body.blocks[preds[0]]['term']
+            if t['k'] == 'switch':
+                sw = preds[0]
+                break
+            if t['k'] not in ('goto', 'call', 'drop'):
+                return None
+            cur = preds[0]
+        if sw is None:
+            return None
+        t = body.blocks[sw]['term']
+        succs = {x for v, x in t['targets']} | ({t['otherwise']} if t.get('otherwise') is not None else set())
+        if len(succs) != 2 or len(t['targets']) != 1 or t['targets'][0][0] != '0' or t['discr']['k'] not in ('copy', 'move') or t['discr']['pl'].get('p'):
+            return None
+        fail_when = (cur == t['otherwise'])          # the condition value that leads to the panic
+        if cur not in succs:
+            return None
+        l = t['discr']['pl']['l']
+        for _ in range(4):
+            d = zf.single_def(l)
+            if not d:
+                return None
+            if d[0] == 'assign' and d[2]['rv']['k'] == 'unop' and d[2]['rv']['op'] == 'Not' and d[2]['rv']['a']['k'] in ('copy', 'move') \
+                    and not d[2]['rv']['a']['pl'].get('p'):
+                l = d[2]['rv']['a']['pl']['l']
+                fail_when = not fail_when
+                continue
+            if d[0] == 'assign' and d[2]['rv']['k'] == 'use' and d[2]['rv']['op']['k'] in ('copy', 'move') and not d[2]['rv']['op']['pl'].get('p'):
+                l = d[2]['rv']['op']['pl']['l']
+                continue
+            if d[0] == 'assign' and d[2]['rv']['k'] == 'binop' and d[2]['rv']['op'] in ('Eq', 'Ne', 'Lt', 'Le', 'Gt', 'Ge'):
+                rv = d[2]['rv']
+                tys = [body.local_ty(o['pl']['l']) for o in (rv['a'], rv['b']) if o['k'] in ('copy', 'move')]
+                if any(ty.lstrip('&').strip() not in ('usize', 'u64', 'u32', 'u16', 'u8') for ty in tys if not ty.startswith('(')):
+                    return None
+                a, b = zf.term_op(rv['a']), zf.term_op(rv['b'])
+                if a is None or b is None:
+                    return None
+                tf, ff = zf._cmp_facts(rv['op'], a, b)
+                passing = ff if fail_when else tf
+                op = rv['op']
+                # `!=` is a conjunction of bounds only against the ends of the range
+                is_ne_side = (op == 'Ne' and not fail_when) or (op == 'Eq' and fail_when)
+                if is_ne_side and not passing:
+                    return None
+                return passing or None
+            if d[0] == 'call' and (d[2].get('callee') or '').endswith('::is_empty') and d[2]['args'] and d[2]['args'][0]['k'] in ('copy', 'move'):
+                ln = zf.len_of_place(d[2]['args'][0]['pl'])
+                if ln is None:
+                    return None
+                return [((None, 1), ln)] if fail_when else [(ln, (None, 0))]
+            return None
+        return None
 
     def _indexed_name(self, zf, t, placename):
         body = zf.body
